@@ -707,9 +707,54 @@ var splitMax = 4
 // indexOf is strings.Index as a term, tied to strings.Contains (the string abstraction keeps
 // the two apart otherwise): idx >= -1, and idx >= 0 exactly when the string contains the other.
 func (c *icall) indexOf(a, sep StrV) IntV {
+	// a concatenation is scanned piece by piece: pieces the path condition shows free of the
+	// separator are skipped, the first literal piece containing it gives the position
+	if a.K == SOpaque && sep.K == SLit && sep.S != "" {
+		if leaves := flattenConcat(a.T); len(leaves) > 1 {
+			var acc []string
+			sum := func(extra int) IntV {
+				if len(acc) == 0 {
+					return mkInt(int64(extra))
+				}
+				t := acc[0]
+				if len(acc) > 1 {
+					t = "(+ " + strings.Join(acc, " ") + ")"
+				}
+				if extra != 0 {
+					t = "(+ " + t + " " + strconv.Itoa(extra) + ")"
+				}
+				return symInt(t)
+			}
+			decided := true
+			for _, l := range leaves {
+				lv := opaqueStr(l)
+				if lv.K == SLit {
+					if i := strings.Index(lv.S, sep.S); i >= 0 {
+						return sum(i)
+					}
+					// a separator longer than one byte could straddle two pieces
+					if len(sep.S) > 1 {
+						decided = false
+						break
+					}
+					acc = append(acc, strconv.Itoa(len(lv.S)))
+					continue
+				}
+				if len(sep.S) > 1 || c.w.feasible(c.s, strContains(lv, sep)) {
+					decided = false
+					break
+				}
+				acc = append(acc, strLen(lv).T)
+			}
+			if decided {
+				return mkInt(-1)
+			}
+		}
+	}
 	t := "(str.indexof " + a.term() + " " + sep.term() + " 0)"
 	c.s.addPC("(>= " + t + " (- 1))")
 	c.s.addPC(tEq("(>= "+t+" 0)", strContains(a, sep)))
+	c.s.addPC("(or (= " + t + " (- 1)) (<= (+ " + t + " " + strLen(sep).T + ") " + strLen(a).T + "))")
 	return symInt(t)
 }
 
